@@ -162,10 +162,16 @@ func (sc *SlotChain) AddStatSlot(s StatSlot) {
 func (sc *SlotChain) Entry(ctx *EntryContext) *TokenResult {
 	// This should not happen, unless there are errors existing in Sentinel internal.
 	// If happened, need to add TokenResult in EntryContext
+	ruleCheckPhase := false
 	defer func() {
 		if err := recover(); err != nil {
 			logging.Error(errors.Errorf("%+v", err), "Sentinel internal panic in SlotChain.Entry()")
 			ctx.SetError(errors.Errorf("%+v", err))
+			if ruleCheckPhase {
+				// The panic was raised while checking rules. The request is let through, so it still
+				// has to be recorded as passed: its Exit will report the completion.
+				sc.recordPassAfterPanic(ctx)
+			}
 			return
 		}
 	}()
@@ -179,6 +185,7 @@ func (sc *SlotChain) Entry(ctx *EntryContext) *TokenResult {
 	}
 
 	// execute rule based checking slot
+	ruleCheckPhase = true
 	rcs := sc.ruleChecks
 	var ruleCheckRet *TokenResult
 	if len(rcs) > 0 {
@@ -202,6 +209,7 @@ func (sc *SlotChain) Entry(ctx *EntryContext) *TokenResult {
 	}
 
 	// execute statistic slot
+	ruleCheckPhase = false
 	ss := sc.stats
 	ruleCheckRet = ctx.RuleCheckResult
 	if len(ss) > 0 {
@@ -216,6 +224,24 @@ func (sc *SlotChain) Entry(ctx *EntryContext) *TokenResult {
 		}
 	}
 	return ruleCheckRet
+}
+
+// recordPassAfterPanic notifies the statistic slots that the entry passed, after a panic in a
+// rule check slot has been contained.
+func (sc *SlotChain) recordPassAfterPanic(ctx *EntryContext) {
+	defer func() {
+		if err := recover(); err != nil {
+			logging.Error(errors.Errorf("%+v", err), "Sentinel internal panic in SlotChain.recordPassAfterPanic()")
+		}
+	}()
+	if ctx.RuleCheckResult == nil {
+		ctx.RuleCheckResult = NewTokenResultPass()
+	} else {
+		ctx.RuleCheckResult.ResetToPass()
+	}
+	for _, s := range sc.stats {
+		s.OnEntryPassed(ctx)
+	}
 }
 
 func (sc *SlotChain) exit(ctx *EntryContext) {
